@@ -150,29 +150,62 @@ Proof.
   - apply Rmult_lt_0_compat; [apply exp_pos | apply Rabs_pos_lt; exact N].
 Qed.
 
+(* the finite-difference step the code uses for the walk-off derivative: whatever branch is taken (relative step eps^(1/3)|theta|,
+   absolute step at theta = 0 or below a floor angle) it is positive and at most eps^(1/3) max(|theta|, 1) *)
+Definition walkoff_step_ok (theta h : R) : Prop := 0 < h <= Rpower eps64 (1 / 3) * Rmax (Rabs theta) 1.
+
+Lemma cbrt_eps_pos : 0 < Rpower eps64 (1 / 3).
+Proof. unfold Rpower. apply exp_pos. Qed.
+
+Lemma derivative_at_central f theta :
+  exists h, walkoff_step_ok theta h /\ derivative_at_gen f theta = (f (theta + h) - f (theta - h)) / (2 * h).
+Proof.
+  exists (fd_step_gen theta). pose proof (fd_step_pos theta) as Hh. pose proof cbrt_eps_pos as Hp. split.
+  - split; [exact Hh |]. unfold fd_step_gen. destruct (Req_EM_T theta 0).
+    + rewrite <- (Rmult_1_r (Rpower eps64 (1 / 3))) at 1. apply Rmult_le_compat_l; [lra | apply Rmax_r].
+    + apply Rmult_le_compat_l; [lra | apply Rmax_l].
+  - unfold derivative_at_gen, fd_quotient_gen, fd_forward_point_gen, fd_backward_point_gen. cbv zeta.
+    replace 0.5 with (/ 2) by lra. field. lra.
+Qed.
+
+Lemma walkoff_np_prime_central f theta :
+  exists h, walkoff_step_ok theta h /\ walkoff_np_prime_gen f theta = (f (theta + h) - f (theta - h)) / (2 * h).
+Proof.
+  pose proof (derivative_at_central f theta) as Hd. pose proof cbrt_eps_pos as Hp.
+  unfold walkoff_np_prime_gen.
+  first
+  [ exact Hd
+  | match goal with |- context [Rlt_dec (Rabs theta) ?fl] =>
+      destruct (Rlt_dec (Rabs theta) fl) as [Hs | Hs];
+      [ exists (Rpower eps64 (1 / 3) * fl); split;
+        [ unfold walkoff_step_ok; split;
+          [ apply Rmult_lt_0_compat; lra
+          | apply Rmult_le_compat_l; [lra | apply Rle_trans with 1; [lra | apply Rmax_r]] ]
+        | replace 0.5 with (/ 2) by lra; field; lra ]
+      | exact Hd ]
+    end ].
+Qed.
+
 Theorem walkoff_defined theta phi nx ny nz d p :
   0 < nx -> 0 < ny -> 0 < nz -> unit_vec d ->
-  fd_step_gen (walkoff_theta_at_gen theta) <> 0 /\
+  (forall f, exists h, 0 < h /\ walkoff_np_prime_gen f (walkoff_theta_at_gen theta) =
+                               (f (walkoff_theta_at_gen theta + h) - f (walkoff_theta_at_gen theta - h)) / (2 * h)) /\
   (forall t, 0 < index_along_gen t phi nx ny nz d p).
 Proof.
   intros Hx Hy Hz Hd. split.
-  - apply Rgt_not_eq, fd_step_pos.
+  - intros f. destruct (walkoff_np_prime_central f (walkoff_theta_at_gen theta)) as (h & [Hh _] & E). exists h. split; assumption.
   - intros t. apply index_along_positive; assumption.
 Qed.
 
-(* the code's walk-off is the arctangent of minus the central difference quotient over the index *)
+(* the code's walk-off is the arctangent of minus a central difference quotient over the index *)
 Lemma walkoff_gen_unfold n theta :
-  walkoff_gen n theta =
-  let h := fd_step_gen theta in atan (- ((n (theta + h) - n (theta - h)) / (2 * h)) / n theta).
+  exists h, walkoff_step_ok theta h /\
+  walkoff_gen n theta = atan (- ((n (theta + h) - n (theta - h)) / (2 * h)) / n theta).
 Proof.
-  unfold walkoff_gen, walkoff_tail_gen, derivative_at_gen, fd_quotient_gen, fd_forward_point_gen, fd_backward_point_gen,
-    walkoff_theta_assigned_gen, walkoff_theta_at_gen. cbv zeta.
+  unfold walkoff_gen, walkoff_tail_gen, walkoff_theta_assigned_gen, walkoff_theta_at_gen.
   replace (theta / 1) with theta by field. rewrite Rmult_1_r.
-  pose proof (fd_step_pos theta) as Hh.
-  f_equal. f_equal. f_equal.
-  replace ((theta + fd_step_gen theta) * 1) with (theta + fd_step_gen theta) by ring.
-  replace ((theta - fd_step_gen theta) * 1) with (theta - fd_step_gen theta) by ring.
-  replace 0.5 with (/ 2) by lra. field. lra.
+  destruct (walkoff_np_prime_central (fun t => n (t * 1)) theta) as (h & Hh & E).
+  exists h. split; [exact Hh |]. rewrite E. rewrite !Rmult_1_r. reflexivity.
 Qed.
 
 (* optimal_waist_position = -L / (2 n_z) *)
@@ -225,7 +258,8 @@ Qed.
 
 Lemma walkoff_gen_ext f g theta : (forall t, f t = g t) -> walkoff_gen f theta = walkoff_gen g theta.
 Proof.
-  intros H. unfold walkoff_gen, derivative_at_gen. cbv zeta. rewrite !H. reflexivity.
+  intros H. replace f with g; [reflexivity |].
+  apply FunctionalExtensionality.functional_extensionality. intros t. symmetry. apply H.
 Qed.
 
 (* ---- the code's finite-difference walk-off against the exact one: |rho_code - rho_exact| <= M h^2 / (6 n),
@@ -233,16 +267,20 @@ Qed.
 Theorem walkoff_gen_truncation (n : R -> R) theta M :
   0 < n theta ->
   (forall t k, (k <= 3)%nat -> ex_derive_n n k t) ->
-  (forall t, theta - fd_step_gen theta < t < theta + fd_step_gen theta -> Rabs (Derive_n n 3 t) <= M) ->
-  Rabs (walkoff_gen n theta - walkoff_exact n theta) <= M * fd_step_gen theta ^ 2 / (6 * n theta).
+  (forall t, Rabs (Derive_n n 3 t) <= M) ->
+  Rabs (walkoff_gen n theta - walkoff_exact n theta) <= M * (Rpower eps64 (1 / 3) * Rmax (Rabs theta) 1) ^ 2 / (6 * n theta).
 Proof.
-  intros Hn Hsm HM. rewrite walkoff_gen_unfold. cbv zeta. unfold walkoff_exact.
-  pose proof (fd_step_pos theta) as Hh. set (h := fd_step_gen theta) in *.
-  pose proof (central_difference_error n theta h M Hh Hsm HM) as Hc.
+  intros Hn Hsm HM. destruct (walkoff_gen_unfold n theta) as (h & [Hh Hhmax] & E). rewrite E. unfold walkoff_exact.
+  assert (HM0 : 0 <= M) by (eapply Rle_trans; [apply Rabs_pos | apply (HM 0)]).
+  pose proof (central_difference_error n theta h M Hh Hsm (fun t _ => HM t)) as Hc.
   eapply Rle_trans; [apply atan_lipschitz |].
   set (q := (n (theta + h) - n (theta - h)) / (2 * h)) in *.
   replace (- q / n theta - - Derive n theta / n theta) with (- (q - Derive n theta) / n theta) by (field; lra).
   unfold Rdiv at 1. rewrite Rabs_mult, Rabs_Ropp, (Rabs_right (/ n theta)) by (left; apply Rinv_0_lt_compat; exact Hn).
-  replace (M * h ^ 2 / (6 * n theta)) with (M * h ^ 2 / 6 * / n theta) by (field; lra).
-  apply Rmult_le_compat_r; [left; apply Rinv_0_lt_compat; exact Hn | exact Hc].
+  set (hm := Rpower eps64 (1 / 3) * Rmax (Rabs theta) 1) in *.
+  replace (M * hm ^ 2 / (6 * n theta)) with (M * hm ^ 2 / 6 * / n theta) by (field; lra).
+  apply Rmult_le_compat_r; [left; apply Rinv_0_lt_compat; exact Hn |].
+  eapply Rle_trans; [exact Hc |].
+  assert (h ^ 2 <= hm ^ 2) by (apply pow_incr; lra).
+  unfold Rdiv. apply Rmult_le_compat_r; [lra |]. apply Rmult_le_compat_l; assumption.
 Qed.
